@@ -20,6 +20,11 @@
 
 /* ---- proof cut: an assertion that, once checked, is assumed for the rest of the path (sound: the
  * assumption only discards states in which the assertion just checked has already failed) */
+#ifdef PGMV_CANARY
+#define PGMV_CANARY_POINT(n) __CPROVER_assert(0, "pgmv canary: return " #n " reachable")
+#else
+#define PGMV_CANARY_POINT(n) ((void)0)
+#endif
 #define PGMV_CUT(c, msg) do { __CPROVER_assert(c, msg); __CPROVER_assume(c); } while (0)
 
 /* ---- exceptions: a throw becomes "set flag, return unspecified value" in the throwing function */
